@@ -51,7 +51,7 @@ def item_list(tier):
                      ('cxx-pool', 'impacted'), ('cxx-pool-rev', 'impacted'), ('cxx-pool', 'default'), ('emptymod', 'default'),
                      ('ties', 'unreachable'), ('ties-rev', 'unreachable-leaf'), ('ties', 'unreachable-all'), ('twice-ties', 'unreachable'), ('rvalueref', 'unreachable')):
             items.append(('abidiff', n, o))
-        for i in range(6):
+        for i in list(range(6)) + [90]:
             items.append(('abipkgdiff', 'pk%02d' % i, 'default'))
     else:
         for n in ABIDW_INPUTS:
@@ -60,7 +60,7 @@ def item_list(tier):
         for n in ABIDIFF_PAIRS:
             for o in ABIDIFF_OPTS:
                 items.append(('abidiff', n, o))
-        for i in range(40):
+        for i in list(range(40)) + [90]:
             items.append(('abipkgdiff', 'pk%02d' % i, 'default'))
     return items
 
@@ -87,7 +87,7 @@ def make_items(ctx, only=None):
             idx = int(n[2:])
             it['wl'] = K.gen_workload(C.Prng(C.mix_seed(ctx.seed, 14, 7, idx)), big=(idx % 3 == 2), swarm=True, splitdbg=True)
             it['wl']['format'] = 'dir' if idx % 4 else 'tar'
-            if idx == 3:
+            if idx == 90:
                 import copy
                 it['wl'] = copy.deepcopy(K.WL_ERROR_PAIRS)     # the exit status is accumulated in completion order from error and change bits
             if idx % 6 == 1:
